@@ -508,13 +508,13 @@ type c07InertCase struct {
 func c07InertGen(r *Rng) c07InertCase {
 	c := c07InertCase{Inert: true, Cached: r.Bool(), San: r.Bool(), ParentTag: r.Bool(), CloseTwice: r.Bool(), PassFirst: r.Bool()}
 	for i, n := 0, r.Range(0, 3); i < n; i++ {
-		c.Before = append(c.Before, r.Intn(4))
+		c.Before = append(c.Before, r.Intn(8))
 	}
 	for i, n := 0, r.Range(1, 4); i < n; i++ {
 		if len(c.Before) > 0 && r.Chance(60) {
 			c.After = append(c.After, c.Before[r.Intn(len(c.Before))]) // the very same derivation again
 		} else {
-			c.After = append(c.After, r.Intn(4))
+			c.After = append(c.After, r.Intn(8))
 		}
 	}
 	return c
@@ -528,8 +528,17 @@ func c07Derive(s tally.Scope, d int) tally.Scope {
 		return s.Tagged(map[string]string{"t": "v"})
 	case 2:
 		return s.SubScope("d").Tagged(map[string]string{"u": "w-x"})
-	default:
+	case 3:
 		return s.Tagged(map[string]string{"t": "v", "z": "q"})
+	// derivations that denote the scope itself: from a closed scope they are inert like any other
+	case 4:
+		return s.Tagged(nil)
+	case 5:
+		return s.Tagged(map[string]string{})
+	case 6:
+		return s.SubScope("")
+	default:
+		return s.Tagged(map[string]string{"p": "1"}) // the parent's own tag when it is the tagged parent
 	}
 }
 
